@@ -28,8 +28,8 @@ func init() {
 		Run:   c02Run,
 		Kinds: []core.Kind{core.ReplayOf("udist", c02Check)},
 		Rule: "every (N1,N2,T) with N1+N2 <= bound (T = nil, all-ones and every composition into >=2 parts) plus complete structured families of larger sizes; " +
-			"for each, PMF/CDF on the whole half-integer grid -1..N1*N2+1 and at g+0.25, g+0.4999; oracle = exact big.Int counts (DP over rank classes, itself validated against literal subset enumeration). " +
-			"A case is non-trivial when T has a tie (the Klotz path) or N1,N2 >= 2.",
+			"for each, PMF/CDF on the whole half-integer grid -1..N1*N2+1 and at g-1ulp, g+1ulp, g+0.25, g+0.4999, and at +-{1e6, 2^31, 2^32, 2^53, 2^62, 2^63, 2^64, 1e19, 1e300, MaxFloat64}; oracle = exact big.Int counts (DP over rank classes, itself validated against literal subset enumeration). " +
+			"For N1+N2<=12 every distribution is also queried, at every grid point, after its tie slice was rewritten in place to the reversed vector (4 query pairs x 2 directions). A case is non-trivial when T has a tie (the Klotz path) or N1,N2 >= 2.",
 		Technique: "bounded-exhaustive input enumeration of the real UDist against an exact big.Int reference model validated by definitional subset enumeration",
 		Assumptions: []string{
 			"PMF is only constrained at attainable points (non-zero exact count), as the statement says",
@@ -81,23 +81,42 @@ func c02Check(c *C02Case, r *core.Rec) {
 		U := float64(v) / 2
 		// CDF on and off the grid: a right-continuous step function.
 		want := u.LE(v)
-		for _, off := range []float64{0, 0.25, 0.4999} {
-			got := d.CDF(U + off)
+		// one ulp below a grid point the mass at the point is not yet included
+		if below := math.Nextafter(U, math.Inf(-1)); true {
+			got := d.CDF(below)
 			calls++
-			if !r.Err("CDF", math.Abs(got-want), c02Tol) {
-				r.Fail("CDF", "UDist{%d,%d,%v}.CDF(%v)=%v, exact %v", n1, n2, c.T, U+off, got, want)
+			if !r.Err("CDF", math.Abs(got-u.LE(v-1)), c02Tol) {
+				r.Fail("CDF-left-limit", "UDist{%d,%d,%v}.CDF(nextafter(%v,-Inf))=%v, exact mass at points <= it is %v", n1, n2, c.T, U, got, u.LE(v-1))
 			}
-			if U+off < 0 && got != 0 {
-				r.Fail("CDF-below", "CDF(%v)=%v, want exactly 0", U+off, got)
-			}
-			if U+off >= float64(n1*n2) && got != 1 {
-				r.Fail("CDF-above", "CDF(%v)=%v, want exactly 1", U+off, got)
+			if below < 0 && got != 0 {
+				r.Fail("CDF-below", "CDF(%v)=%v, want exactly 0", below, got)
 			}
 			if got < prev-c02Mono {
-				r.Fail("CDF-monotone", "CDF drops from %v to %v at %v", prev, got, U+off)
+				r.Fail("CDF-monotone", "CDF drops from %v to %v at %v", prev, got, below)
+			}
+			prev = got
+		}
+		for _, off := range []float64{0, 5e-324, 0.25, 0.4999} {
+			x := U + off
+			if off == 5e-324 {
+				x = math.Nextafter(U, math.Inf(1))
+			}
+			got := d.CDF(x)
+			calls++
+			if !r.Err("CDF", math.Abs(got-want), c02Tol) {
+				r.Fail("CDF", "UDist{%d,%d,%v}.CDF(%v)=%v, exact %v", n1, n2, c.T, x, got, want)
+			}
+			if x < 0 && got != 0 {
+				r.Fail("CDF-below", "CDF(%v)=%v, want exactly 0", x, got)
+			}
+			if x >= float64(n1*n2) && got != 1 {
+				r.Fail("CDF-above", "CDF(%v)=%v, want exactly 1", x, got)
+			}
+			if got < prev-c02Mono {
+				r.Fail("CDF-monotone", "CDF drops from %v to %v at %v", prev, got, x)
 			}
 			if got < -1e-12 || got > 1+1e-12 || math.IsNaN(got) {
-				r.Fail("CDF-range", "CDF(%v)=%v outside [0,1]", U+off, got)
+				r.Fail("CDF-range", "CDF(%v)=%v outside [0,1]", x, got)
 			}
 			prev = got
 			r.OutcomeF(got)
@@ -123,12 +142,90 @@ func c02Check(c *C02Case, r *core.Rec) {
 			r.Fail("mirror-CDF", "1-CDF_{%d,%d}(%v)=%v, exact CDF_{%d,%d}(%v)=%v", n2, n1, float64(n1*n2)-U-0.5, gc, n1, n2, U, want)
 		}
 	}
+	// far outside the support, up to the largest finite real
+	for _, x := range []float64{1e6, 1 << 31, 1 << 32, 1 << 53, 1 << 62, 1 << 63, 1 << 64, 1e19, 1e300, math.MaxFloat64} {
+		calls += 2
+		if got := d.CDF(x); x >= float64(n1*n2) && got != 1 {
+			r.Fail("CDF-far-above", "UDist{%d,%d,%v}.CDF(%v)=%v, want exactly 1", n1, n2, c.T, x, got)
+		}
+		if got := d.CDF(-x); got != 0 {
+			r.Fail("CDF-far-below", "UDist{%d,%d,%v}.CDF(%v)=%v, want exactly 0", n1, n2, c.T, -x, got)
+		}
+	}
+	if n1+n2 <= 12 && len(c.T) >= 2 {
+		calls += c02Rewrite(c, r)
+	}
 	if stride == 1 {
 		if !r.Err("mass", math.Abs(sum-1), c02Tol) {
 			r.Fail("mass", "sum of PMF over attainable points = %v", sum)
 		}
 	}
 	r.Trans(calls)
+}
+
+// c02Rewrite: the tie slice belongs to the caller. After it is rewritten in
+// place (same length, same total) a query at the same point must answer for the
+// tie vector now in the slice, whatever was asked before.
+func c02Rewrite(c *C02Case, r *core.Rec) (calls int64) {
+	n1, n2 := c.N1, c.N2
+	T2 := make([]int, len(c.T))
+	for i, t := range c.T {
+		T2[len(c.T)-1-i] = t
+	}
+	same := true
+	for i := range T2 {
+		if T2[i] != c.T[i] {
+			same = false
+		}
+	}
+	if same { // palindromic: move one unit between the two ends instead
+		if T2[0] < 2 {
+			return 0
+		}
+		T2[0]--
+		T2[len(T2)-1]++
+	}
+	us := [2]*ref.UNull{ref.UCounts(n1, n2, c.T), ref.UCounts(n1, n2, T2)}
+	vecs := [2][]int{c.T, T2}
+	buf := make([]int, len(c.T))
+	d := stats.UDist{N1: n1, N2: n2, T: buf}
+	for v := 0; v <= 2*n1*n2; v++ {
+		U := float64(v) / 2
+		for _, q := range []string{"CDF,CDF", "PMF,CDF", "CDF,PMF+", "PMF,PMF"} {
+			for first := 0; first < 2; first++ {
+				copy(buf, vecs[first])
+				if q[:3] == "CDF" {
+					d.CDF(U)
+				} else {
+					d.PMF(U)
+				}
+				copy(buf, vecs[1-first]) // rewrite in place
+				u := us[1-first]
+				var got, want float64
+				var what string
+				switch q[4:] {
+				case "CDF":
+					got, want, what = d.CDF(U), u.LE(v), fmt.Sprintf("CDF(%v)", U)
+				case "PMF+":
+					if !u.Attainable(v + 1) {
+						continue
+					}
+					got, want, what = d.PMF(U+0.5), u.PMF(v+1), fmt.Sprintf("PMF(%v)", U+0.5)
+				default:
+					if !u.Attainable(v) {
+						continue
+					}
+					got, want, what = d.PMF(U), u.PMF(v), fmt.Sprintf("PMF(%v)", U)
+				}
+				calls += 2
+				if !r.Err("rewrite", math.Abs(got-want), c02Tol) {
+					r.Fail("T-rewritten-in-place", "UDist{%d,%d,T}: after a %s query with T=%v the slice was rewritten to %v; %s=%v, exact %v", n1, n2, q[:3], vecs[first], vecs[1-first], what, got, want)
+					return
+				}
+			}
+		}
+	}
+	return
 }
 
 // c02Conformance validates the reference model against the definition.
